@@ -67,6 +67,31 @@ def ob_base(mc, use_fe, patience, mode):
     return f
 
 
+def ob_any_seed():
+    """configuration and task are unchanged after optimize() returns *or raises*, for every integer seed - also one
+    the numpy generator rejects (ValueError for seeds outside [0, 2**32))"""
+    def f():
+        st = stubs.Stream("np")
+        with env(stubs.numpy_stream_layer(lambda: st, seed_contract=True)):
+            cfg = M.BaseOptimizationConfig(population_size=2, fitness_error=None, max_cycles=1)
+            seed = sym.integer("seed", -3, 2 ** 32 + 9)
+            t = make_task([cont()], lambda x, i: float(i), seed=seed)
+            opt = Scripted(cfg)
+            c0, t0 = snap_cfg(cfg), snap_task(t)
+            try:
+                opt.optimize(t)
+            except ValueError:
+                if 0 <= seed <= 2 ** 32 - 1:
+                    return Failure("valid-seed-rejected", seed=seed)
+            if snap_cfg(cfg) != c0:
+                return Failure("configuration-changed", seed=seed)
+            t1 = snap_task(t)
+            if t1 != t0:
+                return Failure("task-changed", seed=seed, before=t0["seed"], after=t1["seed"])
+            return OK
+    return f
+
+
 def ob_rejected(kind):
     def f():
         with env(allow_seed=True):
@@ -184,6 +209,7 @@ def obligations(tier):
                               ob_base(mc, use_fe, patience, "serial"), 300))
     for mode in ("thread", "process"):
         obs.append(Ob(f"base[mc=2,fe=1,patience=1,{mode}]", ob_base(2, True, 1, mode), 600))
+    obs.append(Ob("any_seed", ob_any_seed(), 300))
     for kind in ("no-config", "bad-mode", "bad-workers"):
         obs.append(Ob(f"rejected[{kind}]", ob_rejected(kind), 60))
     for cname in optimizer_classes():
